@@ -74,6 +74,15 @@ def softabs_dense(S, coeff):
 # ----------------------------------------------------------------------------------------------
 
 
+FORDER = [False]  # when set, leaf arrays are handed to the constructors in Fortran order
+
+
+def _o(a):
+    """A fresh copy of a parameter array in the memory order under test."""
+    a = np.array(a)
+    return np.asfortranarray(a) if (FORDER[0] and a.ndim == 2) else a
+
+
 def _leaf(name, n, seed):
     from mici import matrices as M
 
@@ -87,19 +96,19 @@ def _leaf(name, n, seed):
         return M.PositiveScaledIdentityMatrix(1.7, n), 1.7 * np.eye(n)
     if name == "diagonal":
         d = P_diag(n, seed, positive=False)
-        return M.DiagonalMatrix(d.copy()), np.diag(d)
+        return M.DiagonalMatrix(_o(d)), np.diag(d)
     if name == "pos_diagonal":
         d = P_diag(n, seed)
-        return M.PositiveDiagonalMatrix(d.copy()), np.diag(d)
+        return M.PositiveDiagonalMatrix(_o(d)), np.diag(d)
     if name in ("triangular_lower", "triangular_upper"):
         T = P_tri(n, seed, name.endswith("lower"))
-        return M.TriangularMatrix(T.copy(), lower=name.endswith("lower")), T
+        return M.TriangularMatrix(_o(T), lower=name.endswith("lower")), T
     if name == "triangular_lower_from_full":
         A = P_sq(n, seed)
-        return M.TriangularMatrix(A.copy(), lower=True), np.tril(A)
+        return M.TriangularMatrix(_o(A), lower=True), np.tril(A)
     if name in ("inverse_triangular_lower", "inverse_triangular_upper"):
         T = P_tri(n, seed, name.endswith("lower"))
-        return (M.InverseTriangularMatrix(T.copy(), lower=name.endswith("lower")),
+        return (M.InverseTriangularMatrix(_o(T), lower=name.endswith("lower")),
                 np.linalg.inv(T))
     if name.startswith("tri_factored_definite"):
         # tri_factored_definite_{pos|neg}_{lower|upper}_{array|tri|invtri}
@@ -108,112 +117,112 @@ def _leaf(name, n, seed):
         lower = lo == "lower"
         T = P_tri(n, seed, lower)
         if how == "array":
-            m = M.TriangularFactoredDefiniteMatrix(T.copy(), sign=sign, factor_is_lower=lower)
+            m = M.TriangularFactoredDefiniteMatrix(_o(T), sign=sign, factor_is_lower=lower)
             return m, sign * T @ T.T
         if how == "tri":
-            m = M.TriangularFactoredDefiniteMatrix(M.TriangularMatrix(T.copy(), lower=lower),
+            m = M.TriangularFactoredDefiniteMatrix(M.TriangularMatrix(_o(T), lower=lower),
                                                    sign=sign)
             return m, sign * T @ T.T
         Ti = np.linalg.inv(T)
         m = M.TriangularFactoredDefiniteMatrix(
-            M.InverseTriangularMatrix(T.copy(), lower=lower), sign=sign)
+            M.InverseTriangularMatrix(_o(T), lower=lower), sign=sign)
         return m, sign * Ti @ Ti.T
     if name in ("tri_factored_pd_lower", "tri_factored_pd_upper"):
         lower = name.endswith("lower")
         T = P_tri(n, seed, lower)
-        return (M.TriangularFactoredPositiveDefiniteMatrix(T.copy(), factor_is_lower=lower),
+        return (M.TriangularFactoredPositiveDefiniteMatrix(_o(T), factor_is_lower=lower),
                 T @ T.T)
     if name == "dense_definite_pos":
         B = P_spd(n, seed)
-        return M.DenseDefiniteMatrix(B.copy(), is_posdef=True), B
+        return M.DenseDefiniteMatrix(_o(B), is_posdef=True), B
     if name == "dense_definite_neg":
         B = -P_spd(n, seed)
-        return M.DenseDefiniteMatrix(B.copy(), is_posdef=False), B
+        return M.DenseDefiniteMatrix(_o(B), is_posdef=False), B
     if name == "dense_definite_neg_factor":
         B = -P_spd(n, seed)
         f = M.TriangularMatrix(np.linalg.cholesky(-B), lower=True)
-        return M.DenseDefiniteMatrix(B.copy(), factor=f, is_posdef=False), B
+        return M.DenseDefiniteMatrix(_o(B), factor=f, is_posdef=False), B
     if name == "dense_pd":
         B = P_spd(n, seed)
-        return M.DensePositiveDefiniteMatrix(B.copy()), B
+        return M.DensePositiveDefiniteMatrix(_o(B)), B
     if name == "dense_pd_factor":
         B = P_spd(n, seed)
         f = M.TriangularMatrix(np.linalg.cholesky(B), lower=True)
-        return M.DensePositiveDefiniteMatrix(B.copy(), factor=f), B
+        return M.DensePositiveDefiniteMatrix(_o(B), factor=f), B
     if name == "dense_pd_product":
         R = P_rect(n, n + 1, seed)
-        return M.DensePositiveDefiniteProductMatrix(R.copy()), R @ R.T
+        return M.DensePositiveDefiniteProductMatrix(_o(R)), R @ R.T
     if name == "dense_pd_product_inner":
         R = P_rect(n, n + 1, seed)
         D = P_diag(n + 1, seed)
-        return (M.DensePositiveDefiniteProductMatrix(R.copy(), M.PositiveDiagonalMatrix(D.copy())),
+        return (M.DensePositiveDefiniteProductMatrix(_o(R), M.PositiveDiagonalMatrix(_o(D))),
                 R @ np.diag(D) @ R.T)
     if name == "dense_pd_product_matrix":
         R = P_rect(n, n + 1, seed)
         B = P_spd(n + 1, seed, 1)
-        return (M.DensePositiveDefiniteProductMatrix(M.DenseRectangularMatrix(R.copy()),
-                                                     M.DensePositiveDefiniteMatrix(B.copy())),
+        return (M.DensePositiveDefiniteProductMatrix(M.DenseRectangularMatrix(_o(R)),
+                                                     M.DensePositiveDefiniteMatrix(_o(B))),
                 R @ B @ R.T)
     if name == "dense_square":
         A = P_sq(n, seed)
-        return M.DenseSquareMatrix(A.copy()), A
+        return M.DenseSquareMatrix(_o(A)), A
     if name == "dense_square_lu":
         A = P_sq(n, seed)
-        return M.DenseSquareMatrix(A.copy(), sla.lu_factor(A), False), A
+        return M.DenseSquareMatrix(_o(A), sla.lu_factor(A), False), A
     if name == "dense_square_lu_transposed":
         A = P_sq(n, seed)
-        return M.DenseSquareMatrix(A.copy(), sla.lu_factor(A.T), True), A
+        return M.DenseSquareMatrix(_o(A), sla.lu_factor(A.T), True), A
     if name == "inverse_lu":
         A = P_sq(n, seed)
-        return (M.InverseLUFactoredSquareMatrix(A.copy(), sla.lu_factor(A),
+        return (M.InverseLUFactoredSquareMatrix(_o(A), sla.lu_factor(A),
                                                 inv_lu_transposed=False), np.linalg.inv(A))
     if name == "dense_symmetric":
         S = P_sym(n, seed)
-        return M.DenseSymmetricMatrix(S.copy()), S
+        return M.DenseSymmetricMatrix(_o(S)), S
     if name == "dense_symmetric_eig":
         S = P_sym(n, seed)
         w, V = np.linalg.eigh(S)
-        return M.DenseSymmetricMatrix(S.copy(), V.copy(), w.copy()), S
+        return M.DenseSymmetricMatrix(_o(S), _o(V), _o(w)), S
     if name == "dense_symmetric_eig_perm":
         # valid eigendecomposition supplied in a different order / sign than eigh returns
         S = P_sym(n, seed)
         w, V = np.linalg.eigh(S)
         V = -V[:, ::-1]
-        return M.DenseSymmetricMatrix(S.copy(), M.OrthogonalMatrix(V.copy()), w[::-1].copy()), S
+        return M.DenseSymmetricMatrix(_o(S), M.OrthogonalMatrix(_o(V)), _o(w[::-1])), S
     if name == "dense_symmetric_eigvec_only":
         # only one half of the optional eigendecomposition supplied (in a non-eigh order)
         S = P_sym(n, seed)
         w, V = np.linalg.eigh(S)
-        return M.DenseSymmetricMatrix(S.copy(), eigvec=-V[:, ::-1].copy()), S
+        return M.DenseSymmetricMatrix(_o(S), eigvec=-_o(V[:, ::-1])), S
     if name == "dense_symmetric_eigval_only":
         S = P_sym(n, seed)
         w, V = np.linalg.eigh(S)
-        return M.DenseSymmetricMatrix(S.copy(), eigval=w[::-1].copy()), S
+        return M.DenseSymmetricMatrix(_o(S), eigval=_o(w[::-1])), S
     if name == "orthogonal":
         Q = P_orth(n, seed)
-        return M.OrthogonalMatrix(Q.copy()), Q
+        return M.OrthogonalMatrix(_o(Q)), Q
     if name == "scaled_orthogonal":
         Q = P_orth(n, seed)
-        return M.ScaledOrthogonalMatrix(-1.5, Q.copy()), -1.5 * Q
+        return M.ScaledOrthogonalMatrix(-1.5, _o(Q)), -1.5 * Q
     if name == "eigendecomposed_symmetric":
         Q = P_orth(n, seed)
         w = P_diag(n, seed, positive=False)
-        return M.EigendecomposedSymmetricMatrix(Q.copy(), w.copy()), (Q * w) @ Q.T
+        return M.EigendecomposedSymmetricMatrix(_o(Q), _o(w)), (Q * w) @ Q.T
     if name == "eigendecomposed_symmetric_orth":
         Q = P_orth(n, seed)
         w = P_diag(n, seed, positive=False)
-        return (M.EigendecomposedSymmetricMatrix(M.OrthogonalMatrix(Q.copy()), w.copy()),
+        return (M.EigendecomposedSymmetricMatrix(M.OrthogonalMatrix(_o(Q)), _o(w)),
                 (Q * w) @ Q.T)
     if name == "eigendecomposed_pd":
         Q = P_orth(n, seed)
         w = P_diag(n, seed)
-        return M.EigendecomposedPositiveDefiniteMatrix(Q.copy(), w.copy()), (Q * w) @ Q.T
+        return M.EigendecomposedPositiveDefiniteMatrix(_o(Q), _o(w)), (Q * w) @ Q.T
     if name == "softabs":
         S = P_sym(n, seed)
-        return M.SoftAbsRegularizedPositiveDefiniteMatrix(S.copy(), 1.5), softabs_dense(S, 1.5)
+        return M.SoftAbsRegularizedPositiveDefiniteMatrix(_o(S), 1.5), softabs_dense(S, 1.5)
     if name == "softabs_soft":
         S = P_sym(n, seed)
-        return M.SoftAbsRegularizedPositiveDefiniteMatrix(S.copy(), 0.5), softabs_dense(S, 0.5)
+        return M.SoftAbsRegularizedPositiveDefiniteMatrix(_o(S), 0.5), softabs_dense(S, 0.5)
     raise KeyError(name)
 
 
@@ -253,6 +262,12 @@ def build(rec, seed=0):
     op = rec[0]
     if op == "leaf":
         return _leaf(rec[1], rec[2], seed)
+    if op == "leaf_f":  # same leaf, 2-D parameter arrays supplied in Fortran order
+        FORDER[0] = True
+        try:
+            return _leaf(rec[1], rec[2], seed)
+        finally:
+            FORDER[0] = False
     if op == "rect":
         _, n, m, k = rec
         R = P_rect(n, m, seed, k)
@@ -401,11 +416,14 @@ def record_constructor_arrays():
 
     depth = [0]
     rec = []
+    snaps = []
+    rec_snaps = snaps
     originals = []
 
     def collect(x):
         if isinstance(x, np.ndarray):
             rec.append(x)
+            snaps.append(x.copy())
         elif isinstance(x, (tuple, list)):
             for e in x:
                 collect(e)
@@ -429,8 +447,14 @@ def record_constructor_arrays():
         if isinstance(cls, type) and issubclass(cls, M.Matrix) and "__init__" in cls.__dict__:
             originals.append((cls, cls.__dict__["__init__"]))
             setattr(cls, "__init__", make(cls.__dict__["__init__"]))
+    RecList = type("RecList", (list,), {})
+    out = RecList()
+    out.snapshots = rec_snaps
     try:
-        yield rec
+        # `rec` is filled while the block runs; expose it together with the snapshots
+        rec_holder = out
+        rec_holder.arrays = rec
+        yield rec_holder
     finally:
         for cls, orig in originals:
             setattr(cls, "__init__", orig)
